@@ -8,6 +8,13 @@ Theorems about the model `AsynqModel.Tools` of asynq/tools.py, for EVERY element
 function OBJECT (`FnObj.fn truthy eqNone`: whatever `bool(f)` and `f == None` answer) and kind of retried body
 (`BodyKind`: runs when scheduled / runs eagerly inside `fn.asynq(..)`).  The right-hand sides are core `List` functions only
 (`List.map`, `List.filter`, `List.mergeSort` - a stable sort -, `List.find?`/`List.all`, `List.partition`).
+
+Layout: per helper / aretry / one round / the property as a whole (the HEADLINE theorems); then a section
+"by construction" with facts that follow from the shape of the model alone and whose content is the correspondence
+with the real code, not the Lean proof; then necessity witnesses for the hypotheses and non-vacuity examples.
+
+Restriction of the statement: amax / amin are covered for calls without `default=` (`Call.inStatement`); the
+built-ins accept that keyword, amax / amin refuse it (`C14_default_kw_outside_statement`).
 -/
 namespace AsynqModel.Tools
 
@@ -71,48 +78,60 @@ theorem C14_firstExt_is_first (k : α → Int) (xs : List α) (m : α) (h : firs
     rw [h] at heq hp hq
     exact ⟨p, q, by simpa using heq, hp, hq⟩
 
+/-- the same for `min`: everything before the result is strictly larger, nothing after it is smaller -/
+theorem C14_firstExt_min_is_first (k : α → Int) (xs : List α) (m : α) (h : firstExt true k xs = some m) :
+    ∃ p q, xs = p ++ m :: q ∧ (∀ y ∈ p, k m < k y) ∧ (∀ y ∈ q, k m ≤ k y) := by
+  rw [firstExt_min_neg] at h
+  obtain ⟨p, q, he, hp, hq⟩ := C14_firstExt_is_first (fun x => - k x) xs m h
+  exact ⟨p, q, he, fun y hy => by have := hp y hy; omega, fun y hy => by have := hq y hy; omega⟩
+
 /-- amax / amin with a key (an async function object of ANY truth value), given one iterable of any kind: the
     first maximum / minimum (enumerate-based tie-break = first extreme wins); ValueError on an empty input, after
     the (empty) round of key calls -/
 theorem C14_amax_amin_first (isMin t e : Bool) (s : Src α) (h : s.kind ≠ .nonIter) :
-    (amaxmin env isMin false (.fn t e) (.one s)).res =
+    (amaxmin env isMin .none (.fn t e) (.one s)).res =
       match firstExt isMin env.key s.items with
       | some m => .ok (.elem m)
       | none => .raised .valueError := by
   obtain ⟨kind, items⟩ := s
   cases kind <;> simp only [amaxmin, maxIterable, amapCore, Src.iterate, Bool.false_eq_true, if_false,
-      FnObj.isNone_fn] <;>
+      FnObj.isNone_fn, ExtraKw.none_bne] <;>
     first
     | (simp at h; done)
     | (rcases pyExt_enumerate_cases isMin env.key items with ⟨h1, h2⟩ | ⟨p, h1, h2⟩ <;> simp only [h1, h2])
 
 theorem C14_amax_first (t e : Bool) (s : Src α) (h : s.kind ≠ .nonIter) :
-    (amaxmin env false false (.fn t e) (.one s)).res =
+    (amaxmin env false .none (.fn t e) (.one s)).res =
       match s.items.find? (fun x => s.items.all fun y => env.key y ≤ env.key x) with
       | some m => .ok (.elem m)
       | none => .raised .valueError := by
   simpa [firstExt] using C14_amax_amin_first env false t e s h
 
 theorem C14_amin_first (t e : Bool) (s : Src α) (h : s.kind ≠ .nonIter) :
-    (amaxmin env true false (.fn t e) (.one s)).res =
+    (amaxmin env true .none (.fn t e) (.one s)).res =
       match s.items.find? (fun x => s.items.all fun y => env.key x ≤ env.key y) with
       | some m => .ok (.elem m)
       | none => .raised .valueError := by
   simpa [firstExt] using C14_amax_amin_first env true t e s h
 
-/-- positional form `amax(a, b, c, ..)` (two or more arguments) = the single-iterable form on the tuple -/
-theorem C14_amax_varargs (isMin : Bool) (keyNone : FnObj) (a b : α) (xs : List α) :
-    amaxmin env isMin false keyNone (.elems (a :: b :: xs)) = amaxmin env isMin false keyNone (.one ⟨.tuple, a :: b :: xs⟩) :=
-  amaxmin_varargs env isMin keyNone a b xs
+/-- positional form `amax(a, b, c, ..)` with a key (two or more arguments): the first maximum / minimum of the
+    arguments in the order they were written -/
+theorem C14_amax_varargs_first (isMin t e : Bool) (a b : α) (xs : List α) :
+    (amaxmin env isMin .none (.fn t e) (.elems (a :: b :: xs))).res =
+      match firstExt isMin env.key (a :: b :: xs) with
+      | some m => .ok (.elem m)
+      | none => .raised .valueError := by
+  rw [amaxmin_varargs]
+  exact C14_amax_amin_first env isMin t e ⟨.tuple, a :: b :: xs⟩ (by simp)
 
-/-- the error cases: unexpected keyword, no argument, one non-iterable argument -> TypeError (before anything
-    is called); empty iterable -> ValueError -/
+/-- the error cases, the same as max / min: a keyword nobody knows, no argument, one non-iterable argument ->
+    TypeError (before anything is called); empty iterable -> ValueError -/
 theorem C14_amax_errors (isMin : Bool) (keyNone : FnObj) (args : MaxArgs α) (x : α) (s : Src α) (h : s.kind ≠ .nonIter)
     (he : s.items = []) :
-    amaxmin env isMin true keyNone args = ⟨.raised .typeError, [], 0⟩ ∧
-    amaxmin env isMin false keyNone (.elems []) = ⟨.raised .typeError, [], 0⟩ ∧
-    amaxmin env isMin false keyNone (.elems [x]) = ⟨.raised .typeError, [], 0⟩ ∧
-    (amaxmin env isMin false keyNone (.one s)).res = .raised .valueError := by
+    amaxmin env isMin .unknown keyNone args = ⟨.raised .typeError, [], 0⟩ ∧
+    amaxmin env isMin .none keyNone (.elems []) = ⟨.raised .typeError, [], 0⟩ ∧
+    amaxmin env isMin .none keyNone (.elems [x]) = ⟨.raised .typeError, [], 0⟩ ∧
+    (amaxmin env isMin .none keyNone (.one s)).res = .raised .valueError := by
   obtain ⟨kind, items⟩ := s
   simp only at he
   subst he
@@ -129,19 +148,50 @@ theorem C14_asift (s : Src α) (h : s.kind ≠ .nonIter) :
 
 /-! ## aretry -/
 
-/-- the body runs exactly `min (k+1) max_tries` times when the first `k` attempts raise a listed exception
-    (`k` = `leadingListed`, counted up to `max_tries`), it sleeps between two attempts only - for a body that
-    runs when its task is scheduled AND for one that runs (and raises) eagerly inside `fn.asynq(..)` -/
-theorem C14_aretry_count (maxTries : Nat) (hm : 0 < maxTries) (listed : List Nat) (script : List Attempt)
+/-- the body runs exactly `min (k+1) max_tries` times, `k` = `leadingListed` = the number of leading attempts that
+    raise a listed exception (counted up to `max_tries`; in plain words: `C14_aretry_runs`); it sleeps between two
+    attempts only - for a body that runs when its task is scheduled AND for one that runs (and raises) eagerly
+    inside `fn.asynq(..)`.  No hypothesis on `max_tries`: with `max_tries = 0` the decorator itself refuses
+    (AssertionError) and nothing runs, which is `min (k+1) 0`. -/
+theorem C14_aretry_count (maxTries : Nat) (listed : List Nat) (script : List Attempt)
     (blocking : Bool) (kind : BodyKind) :
     let r : Run α := aretry maxTries listed script blocking kind
     let n := min (leadingListed listed (scriptAt script) maxTries 0 + 1) maxTries
     totalRuns r.rounds = n ∧ r.rounds.length = n ∧ r.sleeps = n - 1 := by
-  have := retryLoop_spec (α := α) listed (scriptAt script) maxTries blocking kind maxTries 0 hm (by omega)
-  have hn : 0 < min (leadingListed listed (scriptAt script) maxTries 0 + 1) maxTries := by omega
-  simp only [aretry, Nat.ne_of_gt hm, if_false, this, totalRuns_retryRounds _ _ _ _ hn,
-    length_retryRounds _ _ _ _ hn]
-  simp
+  by_cases hm : 0 < maxTries
+  · have := retryLoop_spec (α := α) listed (scriptAt script) maxTries blocking kind maxTries 0 hm (by omega)
+    have hn : 0 < min (leadingListed listed (scriptAt script) maxTries 0 + 1) maxTries := by omega
+    simp only [aretry, Nat.ne_of_gt hm, if_false, this, totalRuns_retryRounds _ _ _ _ hn,
+      length_retryRounds _ _ _ _ hn]
+    simp
+  · have : maxTries = 0 := by omega
+    subst this; simp [aretry, totalRuns]
+
+/-- the sentence of the property text, hypotheses spelled out on the attempts themselves: if the first `k`
+    attempts raise a listed exception (only the first `max_tries` of them matter) and attempt number `k` - if the
+    loop gets that far - does not (it returns, or raises something that is not listed), the body runs exactly
+    `min (k+1) max_tries` times and aretry sleeps once between two consecutive runs -/
+theorem C14_aretry_runs (maxTries k : Nat) (listed : List Nat) (script : List Attempt) (blocking : Bool)
+    (kind : BodyKind)
+    (hl : ∀ j, j < k → j < maxTries → ∃ c, scriptAt script j = .raise c ∧ isListed listed c = true)
+    (hstop : k < maxTries → ∀ c, scriptAt script k = .raise c → isListed listed c = false) :
+    let r : Run α := aretry maxTries listed script blocking kind
+    totalRuns r.rounds = min (k + 1) maxTries ∧ r.sleeps = min (k + 1) maxTries - 1 := by
+  have hc := C14_aretry_count (α := α) maxTries listed script blocking kind
+  by_cases hk : k < maxTries
+  · have hlead : leadingListed listed (scriptAt script) maxTries 0 = k :=
+      leadingListed_eq listed (scriptAt script) k maxTries 0 hk
+        (fun j hj => by simpa using hl j hj (by omega))
+        (fun c h => hstop hk c (by simpa using h))
+    simp only [hlead] at hc
+    exact ⟨hc.1, hc.2.2⟩
+  · have hlead : leadingListed listed (scriptAt script) maxTries 0 = maxTries :=
+      leadingListed_all listed (scriptAt script) maxTries 0
+        (fun j hj => by simpa using hl j (by omega) hj)
+    simp only [hlead] at hc
+    have h1 : min (maxTries + 1) maxTries = min (k + 1) maxTries := by omega
+    rw [h1] at hc
+    exact ⟨hc.1, hc.2.2⟩
 
 /-- its outcome is the outcome of the last attempt that ran: the value returned, an exception that is not
     listed (propagated immediately, no further attempt), or the listed exception of attempt `max_tries` -/
@@ -153,13 +203,63 @@ theorem C14_aretry_result (maxTries : Nat) (hm : 0 < maxTries) (listed : List Na
   simp only [aretry, Nat.ne_of_gt hm, if_false, this]
   simp
 
-/-- an exception that is not listed stops the loop at once: if attempt `k` (after `k` listed failures) raises
-    an unlisted class, exactly `k+1` attempts ran and that exception is the outcome -/
-theorem C14_aretry_unlisted_immediately (listed : List Nat) (script : Nat → Attempt) (maxTries : Nat) (blocking : Bool)
-    (kind : BodyKind) (todo i cls : Nat) (hs : script i = .raise cls) (hl : isListed listed cls = false) :
-    retryLoop (α := α) listed script maxTries blocking kind (todo + 1) i =
-      ⟨.raised (.user cls i), [[attemptBlocks kind blocking (.raise cls)]], 0⟩ := by
-  simp [retryLoop, hs, hl]
+/-- "re-raises anything else immediately": if, after `k` listed failures, attempt `k` (`k < max_tries`) raises a
+    class that is not listed, THAT exception object is the outcome, exactly `k+1` attempts ran and aretry slept
+    `k` times - no further attempt, no sleep after the last one (adopted from the independent audit) -/
+theorem C14_aretry_unlisted_immediately (maxTries : Nat) (listed : List Nat) (script : List Attempt) (blocking : Bool)
+    (kind : BodyKind) (k cls : Nat) (hk : k < maxTries)
+    (hl : ∀ j, j < k → ∃ c, scriptAt script j = .raise c ∧ isListed listed c = true)
+    (hs : scriptAt script k = .raise cls) (hu : isListed listed cls = false) :
+    let r : Run α := aretry maxTries listed script blocking kind
+    r.res = .raised (.user cls k) ∧ totalRuns r.rounds = k + 1 ∧ r.sleeps = k := by
+  have hlead : leadingListed listed (scriptAt script) maxTries 0 = k :=
+    leadingListed_eq listed (scriptAt script) k maxTries 0 hk (by simpa using hl)
+      (fun c h => by simp only [Nat.zero_add] at h; rw [hs] at h; cases h; exact hu)
+  have hc := C14_aretry_count (α := α) maxTries listed script blocking kind
+  have hr := C14_aretry_result (α := α) maxTries (by omega) listed script blocking kind
+  simp only [hlead] at hc hr
+  have hmin : min (k + 1) maxTries = k + 1 := by omega
+  rw [hmin] at hc hr
+  refine ⟨?_, hc.1, by simpa using hc.2.2⟩
+  simp only [Nat.add_sub_cancel] at hr
+  simp [hr, attemptRes, hs]
+
+/-- a value after `k < max_tries` listed failures is returned: `k+1` runs, `k` sleeps -/
+theorem C14_aretry_returns (maxTries : Nat) (listed : List Nat) (script : List Attempt) (blocking : Bool)
+    (kind : BodyKind) (k : Nat) (v : Int) (hk : k < maxTries)
+    (hl : ∀ j, j < k → ∃ c, scriptAt script j = .raise c ∧ isListed listed c = true)
+    (hs : scriptAt script k = .ret v) :
+    let r : Run α := aretry maxTries listed script blocking kind
+    r.res = .ok (.val v) ∧ totalRuns r.rounds = k + 1 ∧ r.sleeps = k := by
+  have hlead : leadingListed listed (scriptAt script) maxTries 0 = k :=
+    leadingListed_eq listed (scriptAt script) k maxTries 0 hk (by simpa using hl)
+      (fun c h => by simp only [Nat.zero_add] at h; rw [hs] at h; cases h)
+  have hc := C14_aretry_count (α := α) maxTries listed script blocking kind
+  have hr := C14_aretry_result (α := α) maxTries (by omega) listed script blocking kind
+  simp only [hlead] at hc hr
+  have hmin : min (k + 1) maxTries = k + 1 := by omega
+  rw [hmin] at hc hr
+  refine ⟨?_, hc.1, by simpa using hc.2.2⟩
+  simp only [Nat.add_sub_cancel] at hr
+  simp [hr, attemptRes, hs]
+
+/-- when the first `max_tries` attempts all raise listed exceptions, the body ran `max_tries` times, the LAST
+    attempt's exception object is re-raised, and there is no sleep after it -/
+theorem C14_aretry_exhausted (maxTries : Nat) (hm : 0 < maxTries) (listed : List Nat) (script : List Attempt)
+    (blocking : Bool) (kind : BodyKind)
+    (hl : ∀ j, j < maxTries → ∃ c, scriptAt script j = .raise c ∧ isListed listed c = true) :
+    let r : Run α := aretry maxTries listed script blocking kind
+    (∃ c, scriptAt script (maxTries - 1) = .raise c ∧ r.res = .raised (.user c (maxTries - 1))) ∧
+      totalRuns r.rounds = maxTries ∧ r.sleeps = maxTries - 1 := by
+  have hlead : leadingListed listed (scriptAt script) maxTries 0 = maxTries :=
+    leadingListed_all listed (scriptAt script) maxTries 0 (by simpa using hl)
+  have hc := C14_aretry_count (α := α) maxTries listed script blocking kind
+  have hr := C14_aretry_result (α := α) maxTries hm listed script blocking kind
+  simp only [hlead] at hc hr
+  have hmin : min (maxTries + 1) maxTries = maxTries := by omega
+  rw [hmin] at hc hr
+  obtain ⟨c, hc1, _⟩ := hl (maxTries - 1) (by omega)
+  exact ⟨⟨c, hc1, by simp [hr, attemptRes, hc1]⟩, hc.1, hc.2.2⟩
 
 /-- the KIND of the retried body does not matter for what aretry does: same outcome, same number of runs of the
     body, same sleeps, whether the body raises when its task is scheduled or already inside `fn.asynq(..)` -/
@@ -198,17 +298,10 @@ theorem C14_aretry_flushes (maxTries : Nat) (hm : 0 < maxTries) (listed : List N
 
 /-! ## the function object -/
 
-/-- the key / predicate OBJECT is only ever asked `is None`: an async function object that is falsy (a callable
-    memo table with `__len__`, `__bool__`) or claims to equal `None` is treated exactly like any other function -/
-theorem C14_fn_object_irrelevant (t e : Bool) (isMin badKw rev : Bool) (s : Src α) (args : MaxArgs α) :
-    afilter env (.fn t e) s = afilter env (.fn true false) s ∧
-    asorted env (.fn t e) rev s = asorted env (.fn true false) rev s ∧
-    amaxmin env isMin badKw (.fn t e) args = amaxmin env isMin badKw (.fn true false) args := by
-  refine ⟨?_, ?_, ?_⟩ <;> simp [afilter, asorted, amaxmin]
-
-/-- in particular a FALSY key is still a key: all per-element key calls are made, in one round -/
+/-- a FALSY key is still a key (the object is only asked `is None`): all per-element key calls are made, in one
+    round; an instance of `C14_one_round`, kept because seeded change C14-6 is exactly its negation -/
 theorem C14_falsy_key_is_called (isMin e : Bool) (s : Src α) (h : s.kind ≠ .nonIter) :
-    (amaxmin env isMin false (.fn false e) (.one s)).rounds = [s.items.map env.blocks] := by
+    (amaxmin env isMin .none (.fn false e) (.one s)).rounds = [s.items.map env.blocks] := by
   obtain ⟨kind, items⟩ := s
   cases kind <;> simp [amaxmin, maxIterable, amapCore, Src.iterate] <;>
     first
@@ -217,62 +310,150 @@ theorem C14_falsy_key_is_called (isMin e : Bool) (s : Src α) (h : s.kind ≠ .n
 
 /-! ## one round -/
 
-/-- every collection helper issues ALL its per-element calls in a single `yield` (or makes none at all): the
-    log of yields is empty or is the one round holding a task for every element of the input -/
+/-- every collection helper issues ALL its per-element calls in a single `yield`: when the invocation has an
+    async function to call and gets as far as iterating its input (`Call.perElement`), the log of yields is
+    EXACTLY the one round holding a task for every element of the input, in input order; otherwise it is empty.
+    (No disjunction: a helper that made no call where calls are due does not satisfy this.) -/
 theorem C14_one_round (c : Call α) (h : c.isRetry = false) :
-    (run env c).rounds = [] ∨ (run env c).rounds = [c.items.map env.blocks] := by
+    (run env c).rounds = if c.perElement then [c.items.map env.blocks] else [] := by
   cases c with
   | aretry => simp [Call.isRetry] at h
-  | amap s => obtain ⟨kind, items⟩ := s; cases kind <;> simp [run, amap, amapCore, Src.iterate, Call.items]
+  | amap s =>
+    obtain ⟨kind, items⟩ := s
+    cases kind <;> simp [run, amap, amapCore, Src.iterate, Call.items, Call.perElement]
   | afilter n s =>
-    obtain ⟨kind, items⟩ := s; cases kind <;> cases n <;> simp [run, afilter, Src.iterate, Call.items]
-  | afilterfalse s => obtain ⟨kind, items⟩ := s; cases kind <;> simp [run, afilterfalse, Src.iterate, Call.items]
+    obtain ⟨kind, items⟩ := s
+    cases kind <;> cases n <;> simp [run, afilter, Src.iterate, Call.items, Call.perElement]
+  | afilterfalse s =>
+    obtain ⟨kind, items⟩ := s
+    cases kind <;> simp [run, afilterfalse, Src.iterate, Call.items, Call.perElement]
   | asorted kn rev s =>
     obtain ⟨kind, items⟩ := s
-    cases kind <;> cases kn <;> simp [run, asorted, amapCore, Src.iterate, Call.items] <;> split <;> simp
-  | asift s => obtain ⟨kind, items⟩ := s; cases kind <;> simp [run, asift, Src.iterate, Call.items]
-  | amaxmin isMin badKw kn args =>
-    cases badKw
+    cases kind <;> cases kn <;> simp [run, asorted, amapCore, Src.iterate, Call.items, Call.perElement] <;>
+      split <;> simp
+  | asift s =>
+    obtain ⟨kind, items⟩ := s
+    cases kind <;> simp [run, asift, Src.iterate, Call.items, Call.perElement]
+  | amaxmin isMin kw kn args =>
+    cases kw
     · cases args with
       | one s =>
         obtain ⟨kind, items⟩ := s
-        cases kind <;> cases kn <;> simp [run, amaxmin, maxIterable, amapCore, Src.iterate, Call.items] <;>
+        cases kind <;> cases kn <;>
+          simp [run, amaxmin, maxIterable, amapCore, Src.iterate, Call.items, Call.perElement, argItems] <;>
           (repeat' split) <;> simp
       | elems xs =>
         match xs with
-        | [] => simp [run, amaxmin, maxIterable]
-        | [x] => cases kn <;> simp [run, amaxmin, maxIterable, Src.iterate]
+        | [] => simp [run, amaxmin, maxIterable, Call.perElement, argItems]
+        | [x] => cases kn <;> simp [run, amaxmin, maxIterable, Src.iterate, Call.perElement, argItems]
         | a :: b :: xs =>
-          cases kn <;> simp [run, amaxmin, maxIterable, amapCore, Src.iterate, Call.items] <;>
+          cases kn <;>
+            simp [run, amaxmin, maxIterable, amapCore, Src.iterate, Call.items, Call.perElement, argItems] <;>
             (repeat' split) <;> simp
-    · simp [run, amaxmin]
+    · simp [run, amaxmin, Call.perElement]
+    · simp [run, amaxmin, Call.perElement]
 
-/-- hence at most one flush of the shared batch per invocation, and it holds every blocking per-element call -/
+/-- hence exactly one flush of the shared batch per invocation, holding every blocking per-element call (no
+    flush iff no per-element call blocks), and none at all for an invocation that makes no per-element calls -/
 theorem C14_one_flush (c : Call α) (h : c.isRetry = false) :
-    (observe (run env c)).flushes = [] ∨ (observe (run env c)).flushes = oneFlush env c.items := by
-  rcases C14_one_round env c h with h | h
-  · left; simp [observe, h, flushSizes]
-  · right; simp only [observe, h, flushSizes_one]
+    (observe (run env c)).flushes = if c.perElement then oneFlush env c.items else [] := by
+  simp only [observe, C14_one_round env c h]
+  cases c.perElement
+  · simp [flushSizes]
+  · simp only [if_true, flushSizes_one]
+
+/-- ... and every per-element call is made exactly once: as many runs of the async function as elements -/
+theorem C14_each_called_once (c : Call α) (h : c.isRetry = false) :
+    (observe (run env c)).runs = if c.perElement then c.items.length else 0 := by
+  simp only [observe, C14_one_round env c h]
+  cases c.perElement <;> simp [totalRuns]
 
 /-! ## the property as a whole -/
 
 /-- **C14**: for every element type, every async key / predicate / truthiness / blocking behaviour (`env`) and
-    every invocation `c` of a helper (any input list, iterable kind, call form, flag, retry script), what the
-    model of the code does is exactly what the built-in counterpart demands: same result or same exception,
-    every key call made once, one flush. -/
-theorem C14_spec_holds (c : Call α) : observe (run env c) = expected env c := by
+    every invocation `c` of a helper inside the statement (any input list, iterable kind, call form, flag, retry
+    script; amax / amin without `default=`), what the model of the code does is exactly what the built-in
+    counterpart demands: same result or same exception, every key call made once, one flush. -/
+theorem C14_spec_holds (c : Call α) (h : c.inStatement = true) : observe (run env c) = expected env c := by
   cases c with
   | amap s => exact amap_obs env s
   | afilter n s => exact afilter_obs env n s
   | afilterfalse s => exact afilterfalse_obs env s
   | asorted kn rev s => exact asorted_obs env kn rev s
-  | amaxmin isMin badKw kn args => exact amaxmin_obs env isMin badKw kn args
+  | amaxmin isMin kw kn args =>
+    exact amaxmin_obs env isMin kw kn args (by intro hk; subst hk; simp [Call.inStatement] at h)
   | asift s => exact asift_obs env s
   | aretry m l sc b k => exact aretry_obs env m l sc b k
 
 /-- the same, through the Boolean observer the check evaluates on the implementation's observations -/
-theorem C14_spec_true [DecidableEq α] (c : Call α) : spec env c (observe (run env c)) = true := by
-  simp [spec, C14_spec_holds env c]
+theorem C14_spec_true [DecidableEq α] (c : Call α) (h : c.inStatement = true) :
+    spec env c (observe (run env c)) = true := by
+  simp [spec, C14_spec_holds env c h]
+
+/-- the observer is as tight as an observer can be: for a call inside the statement it accepts ONE observation,
+    the model's - any other result, exception instance, number of calls, flush list or number of sleeps is
+    rejected -/
+theorem C14_spec_only_model [DecidableEq α] (c : Call α) (h : c.inStatement = true) (o : Obs α) :
+    spec env c o = true ↔ o = observe (run env c) := by
+  simp [spec, C14_spec_holds env c h]
+
+/-- the verdict the driver prints (`specClause`, which names the clause) and the observer the theorems are about
+    (`spec`) agree: "ok" exactly when `spec` holds (adopted from the independent audit) -/
+theorem C14_specClause_ok_iff [DecidableEq α] (c : Call α) (o : Obs α) :
+    specClause env c o = "ok" ↔ spec env c o = true := by
+  unfold specClause spec
+  cases o with | mk r f n s =>
+  generalize expected env c = e
+  cases e with | mk r' f' n' s' =>
+  simp only
+  by_cases h1 : r = r' <;> by_cases h2 : n = n' <;> by_cases h3 : f = f' <;> by_cases h4 : s = s' <;>
+    simp [h1, h2, h3, h4, bne, Obs.mk.injEq] <;> decide
+
+/-! ## by construction
+Facts that hold by the shape of the model alone (one unfolding): they DESCRIBE how tools.py is modelled, their
+content is the correspondence between that model and the real code (the harness measures `bool(f)` and
+`f == None` of the function object and drives every kind; it calls both forms of amax / amin), not the proof. -/
+
+/-- the key / predicate OBJECT is only ever asked `is None`: the model has no branch on `FnObj.fn`'s fields -/
+theorem C14_fn_object_irrelevant (t e : Bool) (isMin rev : Bool) (kw : ExtraKw) (s : Src α) (args : MaxArgs α) :
+    afilter env (.fn t e) s = afilter env (.fn true false) s ∧
+    asorted env (.fn t e) rev s = asorted env (.fn true false) rev s ∧
+    amaxmin env isMin kw (.fn t e) args = amaxmin env isMin kw (.fn true false) args := by
+  refine ⟨?_, ?_, ?_⟩ <;> simp [afilter, asorted, amaxmin]
+
+/-- positional form `amax(a, b, c, ..)` (two or more arguments) = the single-iterable form on the tuple
+    (`iterable = args`, tools.py:110) -/
+theorem C14_amax_varargs (isMin : Bool) (keyNone : FnObj) (a b : α) (xs : List α) :
+    amaxmin env isMin .none keyNone (.elems (a :: b :: xs)) = amaxmin env isMin .none keyNone (.one ⟨.tuple, a :: b :: xs⟩) :=
+  amaxmin_varargs env isMin .none keyNone a b xs
+
+/-- `default=` is refused like any other keyword, before anything is looked at or called (tools.py:103-104) -/
+theorem C14_default_kw_refused (isMin : Bool) (keyNone : FnObj) (args : MaxArgs α) :
+    amaxmin env isMin .dflt keyNone args = ⟨.raised .typeError, [], 0⟩ := by
+  simp [amaxmin]
+
+/-! ## the hypotheses are needed -/
+
+/-- `Call.inStatement` is needed in `C14_spec_holds`: with `default=` the built-ins answer (the default object
+    for an empty input, the extreme otherwise) where amax / amin raise TypeError - for EVERY element type,
+    environment, key object and input of one of the re-iterable kinds.  This is why calls with `default=` are
+    outside the statement; the difference itself is documented behaviour of the library, not a finding. -/
+theorem C14_default_kw_outside_statement (isMin : Bool) (key : FnObj) (kind : IterKind) (xs : List α)
+    (hk : kind ≠ .nonIter) (ho : key = .none → unorderable env xs = false) :
+    observe (run env (.amaxmin isMin .dflt key (.one ⟨kind, xs⟩))) ≠
+      expected env (.amaxmin isMin .dflt key (.one ⟨kind, xs⟩)) := by
+  have hrun : observe (run env (.amaxmin isMin .dflt key (.one ⟨kind, xs⟩))) = noCalls (.raised .typeError) := by
+    simp [run, amaxmin, observe, noCalls, flushSizes, totalRuns]
+  rw [hrun]
+  intro hEq
+  have hres := congrArg Obs.res hEq
+  simp only [expected, argItems, hk, if_false, MaxArgs.isVarargs, Bool.and_false, Bool.false_eq_true,
+    reduceCtorEq, if_true, noCalls] at hres
+  by_cases hkey : key = .none
+  · simp only [hkey, if_true, ho hkey, Bool.false_eq_true, if_false] at hres
+    cases hf : firstExt isMin (selfKey env) xs <;> simp [hf] at hres
+  · simp only [hkey, if_false] at hres
+    cases hf : firstExt isMin env.key xs <;> simp [hf, perElem] at hres
 
 /-! ## non-vacuity -/
 
@@ -285,13 +466,13 @@ example : (asorted exEnv (.fn true false) true ⟨.iterator, [11, 25, 13, 21]⟩
 -- ... which is NOT the reversed ascending sort (seeded mutation C14-1)
 example : (pySorted exEnv.key false [11, 25, 13, 21]).reverse ≠ pySorted exEnv.key true [11, 25, 13, 21] := by decide
 -- first maximum / first minimum among ties
-example : (amaxmin exEnv false false (.fn true false) (.elems [11, 25, 13, 21])).res = .ok (.elem 25) := by decide
-example : (amaxmin exEnv true false (.fn true false) (.one ⟨.iterator, [25, 11, 13, 21]⟩)).res = .ok (.elem 11) := by decide
+example : (amaxmin exEnv false .none (.fn true false) (.elems [11, 25, 13, 21])).res = .ok (.elem 25) := by decide
+example : (amaxmin exEnv true .none (.fn true false) (.one ⟨.iterator, [25, 11, 13, 21]⟩)).res = .ok (.elem 11) := by decide
 -- one round, one flush of four items
 example : (observe (run exEnv (.asorted (.fn true false) false ⟨.list, [11, 25, 13, 21]⟩))).flushes = [4] := by decide
 -- the observer is not trivially true: two flushes for one invocation are rejected, so is a wrong tie-break
 example : spec exEnv (.amap ⟨.list, [11, 25]⟩) ⟨.ok (.vals [1, 2]), [1, 1], 2, 0⟩ = false := by decide
-example : spec exEnv (.amaxmin false false (.fn true false) (.elems [11, 13])) ⟨.ok (.elem 13), [2], 2, 0⟩ = false := by decide
+example : spec exEnv (.amaxmin false .none (.fn true false) (.elems [11, 13])) ⟨.ok (.elem 13), [2], 2, 0⟩ = false := by decide
 -- aretry: two listed failures then a value, max_tries 5 -> 3 runs; max_tries 2 -> 2 runs and the error
 example : observe (aretry (α := Nat) 5 [1] [.raise 1, .raise 4, .ret 9] false .lazy) = ⟨.ok (.val 9), [], 3, 2⟩ := by decide
 example : observe (aretry (α := Nat) 2 [1] [.raise 1, .raise 4, .ret 9] true .lazy) = ⟨.raised (.user 4 1), [1, 1], 2, 1⟩ := by
@@ -301,18 +482,89 @@ example : observe (aretry (α := Nat) 5 [1] [.raise 1, .raise 2, .ret 9] false .
   decide
 -- a FALSY key object is a key: amax by the tens digit, not `max` of the values (seeded mutation C14-6), and the
 -- observer rejects the natural-order answer that makes no key call
-example : (amaxmin exEnv false false (.fn false false) (.one ⟨.list, [31, 47, 12, 28]⟩)).res = .ok (.elem 47) := by decide
-example : spec exEnv (.amaxmin false false (.fn false false) (.one ⟨.list, [39, 41]⟩)) ⟨.ok (.elem 41), [2], 2, 0⟩ = true := by
+example : (amaxmin exEnv false .none (.fn false false) (.one ⟨.list, [31, 47, 12, 28]⟩)).res = .ok (.elem 47) := by decide
+example : spec exEnv (.amaxmin false .none (.fn false false) (.one ⟨.list, [39, 41]⟩)) ⟨.ok (.elem 41), [2], 2, 0⟩ = true := by
   decide
-example : spec exEnv (.amaxmin false false (.fn false false) (.one ⟨.list, [41, 39]⟩)) ⟨.ok (.elem 41), [], 0, 0⟩ = false := by
+example : spec exEnv (.amaxmin false .none (.fn false false) (.one ⟨.list, [41, 39]⟩)) ⟨.ok (.elem 41), [], 0, 0⟩ = false := by
   decide
 -- a re-iterable container that is neither list nor tuple
-example : (observe (run exEnv (.amaxmin true false (.fn true true) (.one ⟨.reiter, [25, 11, 13]⟩)))) = ⟨.ok (.elem 11), [3], 3, 0⟩ := by
+example : (observe (run exEnv (.amaxmin true .none (.fn true true) (.one ⟨.reiter, [25, 11, 13]⟩)))) = ⟨.ok (.elem 11), [3], 3, 0⟩ := by
   decide
 -- an EAGER body: one listed failure then a value -> 2 runs, one flush (the batch item of the good attempt); the
 -- observer rejects the single run of a retry loop that lets the eager failure escape (seeded mutation C14-7)
 example : observe (aretry (α := Nat) 3 [1] [.raise 1, .ret 9] true .eager) = ⟨.ok (.val 9), [1], 2, 1⟩ := by decide
 example : spec exEnv (.aretry 3 [1] [.raise 1, .ret 9] true .eager) ⟨.raised (.user 1 0), [], 1, 0⟩ = false := by decide
+-- ## the observer rejects every wrong observation the independent audit probed (tests/C14_t1.lean, part D)
+-- one key call too many; no flush although the key calls block; a sleep in a collection helper
+example : spec exEnv (.amap ⟨.list, [11, 25]⟩) ⟨.ok (.vals [1, 2]), [2], 2, 0⟩ = true := by decide
+example : spec exEnv (.amap ⟨.list, [11, 25]⟩) ⟨.ok (.vals [1, 2]), [2], 3, 0⟩ = false := by decide
+example : spec exEnv (.amap ⟨.list, [11, 25]⟩) ⟨.ok (.vals [1, 2]), [], 2, 0⟩ = false := by decide
+example : spec exEnv (.amap ⟨.list, [11, 25]⟩) ⟨.ok (.vals [1, 2]), [2], 2, 1⟩ = false := by decide
+-- an unstable sort (21 before 25 although 25 came first and the keys are equal)
+-- (`List.mergeSort` does not reduce under `decide`: go through `C14_spec_only_model`, then compute the model)
+example : spec exEnv (.asorted (.fn true false) false ⟨.list, [25, 21, 11]⟩) ⟨.ok (.elems [11, 21, 25]), [3], 3, 0⟩ = false := by
+  rw [Bool.eq_false_iff]; intro h; rw [C14_spec_only_model exEnv _ rfl] at h; revert h; decide
+example : spec exEnv (.asorted (.fn true false) false ⟨.list, [25, 21, 11]⟩) ⟨.ok (.elems [11, 25, 21]), [3], 3, 0⟩ = true := by
+  rw [C14_spec_only_model exEnv _ rfl]; decide
+-- amax(5): TypeError, not 5; amax([], key=f): ValueError with no call
+example : spec exEnv (.amaxmin false .none .none (.elems [5])) ⟨.ok (.elem 5), [], 0, 0⟩ = false := by decide
+example : spec exEnv (.amaxmin false .none (.fn true false) (.one ⟨.list, []⟩)) ⟨.raised .valueError, [], 0, 0⟩ = true := by decide
+-- aretry re-raises the LAST attempt's exception object (not the first one's), and does not sleep after it
+example : spec exEnv (.aretry 3 [1] [.raise 1, .raise 1, .raise 1, .ret 4] true .lazy) ⟨.raised (.user 1 2), [1, 1, 1], 3, 2⟩ = true := by
+  decide
+example : spec exEnv (.aretry 3 [1] [.raise 1, .raise 1, .raise 1, .ret 4] true .lazy) ⟨.raised (.user 1 0), [1, 1, 1], 3, 2⟩ = false := by
+  decide
+example : spec exEnv (.aretry 3 [1] [.raise 1, .raise 1, .raise 1, .ret 4] true .lazy) ⟨.raised (.user 1 2), [1, 1, 1], 3, 3⟩ = false := by
+  decide
+-- the old asift defect (one-shot iterator partitioned into two empty lists)
+example : spec exEnv (.asift ⟨.iterator, [11, 12, 13]⟩) ⟨.ok (.pair [] []), [3], 3, 0⟩ = false := by decide
+-- the clause the driver names for each of them
+example : specClause exEnv (.amap ⟨.list, [11, 25]⟩) ⟨.ok (.vals [1, 2]), [2], 3, 0⟩ = "calls" := by decide
+example : specClause exEnv (.amap ⟨.list, [11, 25]⟩) ⟨.ok (.vals [1, 2]), [], 2, 0⟩ = "one-round" := by decide
+example : specClause exEnv (.amap ⟨.list, [11, 25]⟩) ⟨.ok (.vals [1, 2]), [2], 2, 1⟩ = "sleeps" := by decide
+
+-- ## one round, undisjoined: what `C14_one_round` / `C14_one_flush` say on concrete calls
+example : (run exEnv (.asorted (.fn false true) true ⟨.iterator, [11, 25, 13]⟩)).rounds = [[true, true, true]] := by decide
+example : (Call.asorted (.fn false true) true (⟨.iterator, [11, 25, 13]⟩ : Src Nat)).perElement = true := by decide
+-- no function, a malformed call, a non-iterable: no per-element call is due, and none is made
+example : (Call.afilter .none (⟨.list, [11, 25]⟩ : Src Nat)).perElement = false := by decide
+example : (Call.amaxmin false .none (.fn true false) (.elems [5] : MaxArgs Nat)).perElement = false := by decide
+example : (Call.amap (⟨.nonIter, []⟩ : Src Nat)).perElement = false := by decide
+-- a helper that made NO call where calls are due is not a model of `C14_one_flush`: the flush list must be [2]
+example : (observe (run exEnv (.amaxmin true .none (.fn false false) (.elems [41, 39])))).flushes = [2] := by decide
+
+-- ## aretry in plain words (`C14_aretry_runs` and its three outcomes), hypotheses satisfiable
+example : let r : Run Nat := aretry 5 [1] [.raise 1, .raise 4, .raise 2] false .lazy
+    r.res = .raised (.user 2 2) ∧ totalRuns r.rounds = 3 ∧ r.sleeps = 2 :=
+  C14_aretry_unlisted_immediately 5 [1] [.raise 1, .raise 4, .raise 2] false .lazy 2 2 (by decide)
+    (by intro j hj; match j, hj with
+      | 0, _ => exact ⟨1, rfl, rfl⟩
+      | 1, _ => exact ⟨4, rfl, rfl⟩) rfl rfl
+example : isListed [1] 2 = false ∧ isListed [1] 4 = true ∧ isListed [2] 4 = false := by decide
+-- k = 2 listed failures (class 4 derives from the listed class 1), then an unlisted class: 3 runs, 2 sleeps
+example : observe (aretry (α := Nat) 5 [1] [.raise 1, .raise 4, .raise 2] false .lazy) = ⟨.raised (.user 2 2), [], 3, 2⟩ := by
+  decide
+-- k = 7 >= max_tries = 3: min (k+1) max_tries = 3 runs, the third exception object comes out
+example : observe (aretry (α := Nat) 3 [1] (List.replicate 7 (.raise 1)) true .eager) = ⟨.raised (.user 1 2), [], 3, 2⟩ := by
+  decide
+
+-- ## the hypotheses are needed (machine-checked witnesses)
+-- `0 < max_tries` in `C14_aretry_result` / `C14_aretry_flushes` (not in `C14_aretry_count`): max_tries = 0 is refused
+example : (aretry (α := Nat) 0 [1] [.ret 3] true .eager).res ≠
+    attemptRes (scriptAt [.ret 3]) (min (leadingListed [1] (scriptAt [.ret 3]) 0 0 + 1) 0 - 1) := by decide
+-- `s.kind ≠ .nonIter` in the per-helper theorems: a non-iterable input is a TypeError, not `map` of anything
+example : (amap exEnv ⟨.nonIter, [11]⟩).res = .raised .typeError := by decide
+-- `k < max_tries` in `C14_aretry_unlisted_immediately`: an unlisted failure the loop never reaches is not raised
+example : (aretry (α := Nat) 2 [1] [.raise 1, .raise 1, .raise 2] false .lazy).res = .raised (.user 1 1) := by decide
+-- `Call.inStatement` in `C14_spec_holds`: `amax([], default=d)` - max answers d, amax raises TypeError
+example : expected exEnv (.amaxmin false .dflt .none (.one ⟨.list, []⟩)) = ⟨.ok .dflt, [], 0, 0⟩ := by decide
+example : observe (run exEnv (.amaxmin false .dflt .none (.one ⟨.list, []⟩))) = ⟨.raised .typeError, [], 0, 0⟩ := by decide
+example : spec exEnv (.amaxmin false .dflt (.fn true false) (.one ⟨.list, [11, 25]⟩))
+    (observe (run exEnv (.amaxmin false .dflt (.fn true false) (.one ⟨.list, [11, 25]⟩)))) = false := by decide
+-- ... while `max(a, b, default=d)` is a TypeError for the built-in as well
+example : expected exEnv (.amaxmin false .dflt .none (.elems [11, 25])) = ⟨.raised .typeError, [], 0, 0⟩ := by decide
+-- the hypotheses of `C14_default_kw_outside_statement` are satisfiable
+example : unorderable exEnv [11, 25] = false := by decide
 end examples
 
 end AsynqModel.Tools
